@@ -33,6 +33,12 @@ package dpipe
 //@   modifies lastUntil
 //@   ensures [nil] err == nil
 
+// the constructor establishes what Read/Write rely on
+//@ func Pipe() (a net.Conn, b net.Conn)
+//@   ensures typeis(a, *conn) && typeis(b, *conn) && ptr(a, *conn) != nil && ptr(b, *conn) != nil && ptr(a, *conn).readDeadline != nil && ptr(b, *conn).readDeadline != nil &&
+//@           ptr(a, *conn).writeDeadline != nil && ptr(b, *conn).writeDeadline != nil && ptr(a, *conn).rCh == ptr(b, *conn).wCh && ptr(a, *conn).wCh == ptr(b, *conn).rCh &&
+//@           ptr(a, *conn).rCh != nil && ptr(a, *conn).wCh != nil && ptr(a, *conn).rCh != ptr(a, *conn).wCh && ptr(a, *conn).closed != nil && ptr(b, *conn).closed != nil && ptr(a, *conn).closed != ptr(b, *conn).closed
+
 // C18: one write is one message, a fresh copy of the caller's bytes; the message log of the channel is the order of writes
 //@ func (c *conn) Write(data []byte) (n int, err error)
 //@   requires c.writeDeadline != nil && c.closed != nil && c.wCh != nil
@@ -56,5 +62,5 @@ package dpipe
 //@ field conn writeDeadline immutable
 //@ lockset C19: conn
 
-//@ property C10: conn.Read, conn.SetReadDeadline
-//@ property C18: conn.Read, conn.Write, conn.Close
+//@ property C10: Pipe, conn.Read, conn.SetReadDeadline
+//@ property C18: Pipe, conn.Read, conn.Write, conn.Close
